@@ -9,6 +9,7 @@ import (
 	"strconv"
 
 	"github.com/gkampitakis/go-snaps/internal/vxrt"
+	"github.com/tidwall/gjson"
 )
 
 // mockT records what go-snaps tells the test.
@@ -176,3 +177,19 @@ func readFile(path string) string {
 	}
 	return string(b)
 }
+
+func osReadDirNames(dir string) ([]string, error) {
+	ents, err := os.ReadDir(dir)
+	if err != nil {
+		return nil, err
+	}
+	var out []string
+	for _, e := range ents {
+		out = append(out, e.Name())
+	}
+	return out, nil
+}
+
+func validJSONString(s string) bool { return gjson.Valid(s) }
+
+func removeFile(p string) { os.Remove(p) }
